@@ -68,9 +68,12 @@ class ClampFacts:
 
     def bounded_by(self, p, is_bound, depth=0):
         """True if |p| (p a magnitude expression) is provably <= some value satisfying is_bound"""
-        if not isinstance(p, Poly) or depth > 6:
+        if not isinstance(p, Poly) or depth > 8:
             return False
         if is_bound(p):
+            return True
+        mg = magnitude_of(p)
+        if mg is not None and mg != p and self.bounded_by(mg, is_bound, depth + 1):
             return True
         inner = abs_inner(p)
         if inner is not None and self.bounded_by(inner, is_bound, depth + 1):
@@ -189,3 +192,190 @@ def r_first_sign_solvers(rep, f):
             rep.violation("R-FIRST-SIGN", key, "the raw first_step is combined with the direction without abs(): %r" % (bad[0][0],), f.body(fn).get("sp"))
         else:
             rep.ok("R-FIRST-SIGN", key, "%d value(s) derived from first_step, all through abs() before the direction factor" % len(uses), nontrivial=bool(uses))
+
+
+# ------------------------------------------------------------------------------------------ R-HMAX-CLAMP
+def hmax_value(sx, body):
+    """value of the local that holds the step-size cap (derived from the max_step field)"""
+    out = []
+    for l in tast.find(body["body"], lambda z: z.get("k") == "Let" and z["pat"].get("k") == "PBind" and z.get("init") is not None
+                       and tast.contains(z["init"], lambda q: q.get("k") == "Field" and (q.get("fdef") or "").endswith("::max_step"))):
+        out.append(l["pat"]["id"])
+    return out
+
+
+def r_hmax_clamp(rep, f):
+    from protocol import SOLVERS
+    for mod, ty in SOLVERS:
+        if mod == "rk4":
+            continue   # fixed step: first_step is the step
+        fn = solve_fn(mod, ty)
+        body = f.body(fn)
+        key = "R-HMAX-CLAMP:%s" % fn
+        try:
+            variants = rk.analyse_variants(f, fn)
+        except rk.AnalysisError as e:
+            rep.inconc("R-HMAX-CLAMP", key, str(e))
+            continue
+        probs = {}
+        n_ok = 0
+        for tag, sx, hk in variants:
+            hm_ids = hmax_value(sx, body)
+            if not hm_ids:
+                rep.inconc("R-HMAX-CLAMP", key, "no local derived from max_step")
+                break
+            hm_vals = [hk.pre_state.get(i) for i in hm_ids if isinstance(hk.pre_state.get(i), Poly)]
+            # a configured minimum step may raise the step (assumed min_step <= max_step)
+            hmin_ids = [l["pat"]["id"] for l in tast.find(body["body"], lambda z: z.get("k") == "Let" and z["pat"].get("k") == "PBind" and z.get("init") is not None
+                                                          and tast.contains(z["init"], lambda q: q.get("k") == "Field" and (q.get("fdef") or "").endswith("::min_step")))]
+            hmin_vals = [hk.pre_state.get(i) for i in hmin_ids if isinstance(hk.pre_state.get(i), Poly)]
+            souts = [r for r in hk.solout_calls if r["in_main"]]
+            if not souts or not isinstance(souts[0]["x"], Poly):
+                continue
+            cf = ClampFacts(sx)
+            xend = Poly.atom("xend")
+            # inductive hypothesis: the step variable's value at the loop head is bounded
+            head_atoms = {v.single_atom() for k, v in (hk.head or {}).items() if isinstance(v, Poly) and v.single_atom()
+                          and DEFS.get(v.single_atom(), ("",))[0] == "widen" and k in (hk.pre_roots or ())}
+            step = souts[0]["x"] - Poly.atom("X")
+            step_atoms = set()
+            stack = list(step.atoms())
+            while stack:
+                a_ = stack.pop()
+                if a_ in step_atoms:
+                    continue
+                step_atoms.add(a_)
+                d_ = DEFS.get(a_)
+                if d_ and d_[0] == "phi":
+                    for x_ in d_[1]:
+                        if isinstance(x_, Poly):
+                            stack.extend(x_.atoms())
+            hyp = head_atoms & step_atoms
+
+            def is_bound(p):
+                if any(p == v or abs_inner(p) == v or (abs_inner(v) is not None and p == v) for v in hm_vals + hmin_vals):
+                    return True
+                if p == xend - Poly.atom("X") or landing_mag(p, xend):
+                    return True
+                a = p.single_atom()
+                if a in hyp:
+                    return True
+                inner = abs_inner(p)
+                if inner is not None and inner.single_atom() in hyp:
+                    return True
+                return False
+
+            def landing(p):
+                return p == xend - Poly.atom("X")
+
+            # (a) the step actually taken
+            m = magnitude_of(step)
+            if not (landing(step) or (m is not None and (cf.bounded_by(m, is_bound) or landing_mag(m, xend))) or cf.bounded_by(step, is_bound)):
+                probs["step-taken"] = ("the step taken, %r, is neither bounded by max_step nor the landing step xend - x (path variant %s)" % (step, tag), souts[0]["node"])
+            else:
+                n_ok += 1
+            # (b) the step proposed for the next iteration on accepting paths
+            skeys = [k for k, v in (hk.head or {}).items() if isinstance(v, Poly) and v.single_atom() in hyp]
+            acc_keys = [k for k, nm in sx.names.items() if nm.endswith(".accepted")]
+            for L in hk.latch or []:
+                if acc_keys and L.get(acc_keys[0], sx.lazy.get(acc_keys[0])) == hk.head.get(acc_keys[0], sx.lazy.get(acc_keys[0])):
+                    continue   # rejecting iteration: shrink-only (R-REJECT-SHRINK)
+                for k in skeys:
+                    hv = L.get(k)
+                    if not isinstance(hv, Poly):
+                        continue
+                    if hv == hk.head.get(k):
+                        continue
+                    mm = magnitude_of(hv)
+                    target = mm if mm is not None else hv
+                    xl = L.get(hk.xkey)
+                    if cf.bounded_by(target, is_bound) or landing(hv) or landing_mag(target, xend) or (isinstance(xl, Poly) and hv == xend - xl):
+                        n_ok += 1
+                    else:
+                        probs["next-step"] = ("after an accepted step the next step %r is not passed through a comparison/min/clamp against max_step (path variant %s)"
+                                              % (hv, tag), hk.main_loop)
+        for pk, (msg, node) in probs.items():
+            rep.violation("R-HMAX-CLAMP", "%s:%s" % (key, pk), msg[:600], node.get("sp") if isinstance(node, dict) else None)
+        if not probs:
+            if n_ok == 0:
+                rep.inconc("R-HMAX-CLAMP", key, "no step value analysed")
+            else:
+                rep.ok("R-HMAX-CLAMP", key, "%d step value(s) over %d path variant(s) bounded by max_step (clamp idioms) or equal to the landing step" % (n_ok, len(variants)))
+
+
+def landing_mag(m, xend):
+    inner = abs_inner(m) if isinstance(m, Poly) else None
+    return inner is not None and (inner == xend - Poly.atom("X") or inner == Poly.atom("X") - xend)
+
+
+# ------------------------------------------------------------------------------------------ R-FIRST-TRIAL
+def r_first_trial(rep, f):
+    """a given first_step is the size of the first trial step: the step variable is initialised to |first_step| * direction"""
+    from symx import phi_leaves
+    from protocol import SOLVERS
+    for mod, ty in SOLVERS:
+        if mod == "rk4":
+            continue
+        fn = solve_fn(mod, ty)
+        key = "R-FIRST-TRIAL:%s" % fn
+        try:
+            sx, hk = rk.analyse_solve(f, fn)
+        except rk.AnalysisError as e:
+            rep.inconc("R-FIRST-TRIAL", key, str(e))
+            continue
+        found = []
+        for k, v in (hk.pre_state or {}).items():
+            if not isinstance(v, Poly):
+                continue
+            for leaf in phi_leaves(v):
+                for m, c in (leaf.t.items() if isinstance(leaf, Poly) else []):
+                    absf = [a for a, e in m if a.startswith("abs[") and H.raw_from(abs_inner(Poly.atom(a)).single_atom() or "", "self.first_step")] if True else []
+                    if absf:
+                        rest = [(a, e) for a, e in m if a not in absf and not (a.startswith("signum[") or a in ("posneg", "direction"))]
+                        found.append((sx.names.get(k, k), leaf, c, rest))
+        # clamp/min wrappers around |first_step| are fine (bounded by max_step); scaling is not
+        good = [x for x in found if abs(x[2]) == 1 and not x[3]]
+        wrapped = []
+        for k, v in (hk.pre_state or {}).items():
+            if isinstance(v, Poly) and reaches(v, lambda a: a.endswith("self.first_step")):
+                wrapped.append(sx.names.get(k, k))
+        if good or (wrapped and not found):
+            rep.ok("R-FIRST-TRIAL", key, "initial step = |first_step| * direction%s" % ("" if good else " (through a clamp)"))
+        elif found:
+            rep.violation("R-FIRST-TRIAL", key, "the initial step derived from first_step is scaled: %r" % (found[0][1],), f.body(fn).get("sp"))
+        else:
+            rep.inconc("R-FIRST-TRIAL", key, "no value derived from first_step before the main loop")
+
+
+# ------------------------------------------------------------------------------------------ R-NMAX-TAINT
+def r_nmax_taint(rep, f):
+    from protocol import SOLVERS
+    for mod, ty in SOLVERS:
+        fn = solve_fn(mod, ty)
+        body = f.body(fn)
+        key = "R-NMAX-TAINT:%s" % fn
+        ids = [l["pat"]["id"] for l in tast.find(body["body"], lambda z: z.get("k") == "Let" and z["pat"].get("k") == "PBind" and z.get("init") is not None
+                                                 and tast.contains(z["init"], lambda q: q.get("k") == "Field" and (q.get("fdef") or "").endswith("::max_steps")))]
+        direct = tast.find_with_parents(body["body"], lambda z: z.get("k") == "Field" and (z.get("fdef") or "").endswith("::max_steps"))
+        if not ids and not direct:
+            rep.inconc("R-NMAX-TAINT", key, "max_steps is not read")
+            continue
+        bad = []
+        n = 0
+        for use, parents in tast.find_with_parents(body["body"], lambda z: z.get("k") == "Path" and z.get("id") in ids):
+            n += 1
+            par = parents[-1]
+            if par.get("k") == "Binary" and par["op"] in ("Ge", "Gt", "Le", "Lt", "Eq", "Ne"):
+                continue
+            if par.get("k") == "Struct" and "ConfigError" in (par.get("def") or ""):
+                continue
+            bad.append(tast.render(par))
+        for use, parents in direct:
+            par = parents[-1]
+            if par.get("k") == "Let" or (par.get("k") == "Binary" and par["op"] in ("Ge", "Gt", "Le", "Lt", "Eq", "Ne")):
+                continue
+            bad.append(tast.render(par))
+        if bad:
+            rep.violation("R-NMAX-TAINT", key, "the step budget is used outside comparisons (it must not influence the integration itself): %s" % bad[:2], body.get("sp"))
+        else:
+            rep.ok("R-NMAX-TAINT", key, "max_steps feeds only %d comparison(s)/validation" % n)
